@@ -224,6 +224,8 @@ var runtimeSwitches = map[string][]string{
 	"C08-python-union-as-generic-arg":       {"union-as-generic-arg"},
 	"C02-flags-number-union-untagged":       {"union-flags-with-number"},
 	"C02-generic-union-param-case-untagged": {"union-with-param-case"},
+	"C08-cpp-map-key-without-hash":          {"map-key-chrono"},
+	"C08-python-union-nested-in-alias":      {"union-nested-in-alias"},
 }
 
 // valueOpts applies value-level exclusion switches of open findings.
